@@ -420,9 +420,10 @@ func (sc *serverConn) readLoop() (err error) {
 			}
 		case FrameGoAway:
 			ga := fr.Body().(*GoAway)
-			if ga.Code() == NoError {
-				err = io.EOF
-			} else {
+			// GOAWAY(NO_ERROR) is the peer shutting down gracefully: it opens
+			// no new streams, and what is in flight completes (RFC 7540 6.8).
+			// It closes the connection itself when it has its answers.
+			if ga.Code() != NoError {
 				err = fmt.Errorf("goaway: %s: %s", ga.Code(), ga.Data())
 			}
 		default:
